@@ -311,7 +311,7 @@ fn run(ctx: &mut Ctx) {
     }
     // ELF tables of three headers: classification does not depend on which other types the table holds
     const ELF_DICT: [u32; 24] = [0, 1, 2, 3, 4, 5, 6, 7, 8, 9, 10, 11, 12, 14, 15, 16, 18, 0x5FFF_FFFF, 0x6000_0000, 0x6FFF_FFF6, 0x6FFF_FFFF, 0x7000_0000, 0x7FFF_FFFF, 0x8000_0000];
-    ctx.bound("elf_tables", "tables [x][string table][y] and [x][y][y] for every pair x, y of 24 raw types (0..=12, 14..=16, 18 and the boundaries of the environment- and processor-specific ranges), both entry layouts: the iterator yields exactly the headers with a documented in-use classification, each with its own class and raw type");
+    ctx.bound("elf_tables", "tables [x][string table][y] and [x][y][y] for every pair x, y of 24 raw types (0..=12, 14..=16, 18 and the boundaries of the environment- and processor-specific ranges), both entry layouts: the iterator yields exactly the headers with a documented in-use classification, each with its own class and raw type, through next() as well as through fold, for_each, count and last");
     for entsize in [64usize, 40] {
         for &x in ELF_DICT.iter() {
             for &y in ELF_DICT.iter() {
@@ -337,7 +337,22 @@ fn run(ctx: &mut Ctx) {
                             }
                             let r = ctx.call("sections", || {
                                 let tag = DynSizedStructure::<TagHeader>::ref_from_slice(&buf.0[..round8(size)]).unwrap().cast::<ElfSectionsTag>();
-                                tag.sections().map(|s| (s.section_type(), s.section_type_raw())).collect::<Vec<_>>()
+                                let by_next = tag.sections().map(|s| (s.section_type(), s.section_type_raw())).collect::<Vec<_>>();
+                                // internal iteration (fold-based adapters an iterator type may specialise) classifies alike
+                                let by_fold = tag.sections().fold(vec![], |mut v, s| {
+                                    v.push((s.section_type(), s.section_type_raw()));
+                                    v
+                                });
+                                let mut by_for_each = vec![];
+                                tag.sections().for_each(|s| by_for_each.push((s.section_type(), s.section_type_raw())));
+                                let last = tag.sections().last().map(|s| (s.section_type(), s.section_type_raw()));
+                                if by_fold != by_next || by_for_each != by_next || tag.sections().count() != by_next.len() || last != by_next.last().copied() {
+                                    let mut odd = by_fold;
+                                    odd.push((ElfSectionType::Unused, 0xFFFF_FFFF));
+                                    odd
+                                } else {
+                                    by_next
+                                }
                             });
                             let want: Vec<(ElfSectionType, u32)> = types.iter().filter_map(|t| expected_elf(*t).map(|e| (e, *t))).collect();
                             match r {
